@@ -7,7 +7,7 @@ from typing_extensions import override
 
 from ..decodestate import DecodeState
 from ..encodestate import EncodeState
-from ..exceptions import odxrequire
+from ..exceptions import DecodeError, odxrequire
 from ..odxlink import OdxDocFragment
 from ..odxtypes import DataType, ParameterValue
 from ..utils import dataclass_fields_asdict
@@ -58,6 +58,22 @@ class ReservedParameter(Parameter):
 
     @override
     def _decode_positioned_from_pdu(self, decode_state: DecodeState) -> ParameterValue:
+        if self.bit_length > 64:
+            # reserved areas can be larger than the largest integer
+            # object. Since their content is not interpreted, they
+            # are skipped like the encoder does.
+            bit_pos = decode_state.cursor_bit_position
+            byte_pos = decode_state.cursor_byte_position
+            byte_length = (bit_pos + self.bit_length + 7) // 8
+            if byte_pos + byte_length > len(decode_state.coded_message):
+                raise DecodeError("Expected a longer message.")
+
+            raw_value = bytes(decode_state.coded_message[byte_pos:byte_pos + byte_length])
+            decode_state.cursor_byte_position = byte_pos + byte_length
+            decode_state.cursor_bit_position = 0
+
+            return (int.from_bytes(raw_value, "little") >> bit_pos) & ((1 << self.bit_length) - 1)
+
         return decode_state.extract_atomic_value(
             bit_length=self.bit_length,
             base_data_type=DataType.A_UINT32,
